@@ -66,4 +66,17 @@ Section ModelIndex.
     intros e h s G Hs. apply index_sane_json.
     exact (proj2 (serial_index_sane op sop md enc ndp md_nil md_is_nil vports sports has_order ndp_spec h s G Hs)).
   Qed.
+
+  (* port addressing in the JSON text: the `edges` member is, link by link, [[rank src, addr], [rank dst, addr]] with
+     `addr` of spec/SerialHugrS.v (a numbered port by its own offset, the order port at value + static count) *)
+  Theorem model_json_edges : forall (encoder : option string) (h : hugr op md) (s : serial sop md),
+    guard_b vports sports has_order h = true -> to_serial enc ndp md_is_nil h = Some s ->
+    jget "edges" (doc_json op_fields md_fields encoder s) =
+    Some (JArr (map (fun l => edge_json (expected_edge vports sports h l)) (h_links h))).
+  Proof.
+    intros e h s G Hs.
+    rewrite <- (map_map (expected_edge vports sports h) edge_json).
+    rewrite <- (serial_port_addressing op sop md enc ndp md_nil md_is_nil vports sports has_order ndp_spec h s G Hs).
+    reflexivity.
+  Qed.
 End ModelIndex.
